@@ -46,8 +46,8 @@ MODELLED = {
     "num": (["1", "+1", "-1", "0", "007", "18446744073709551615"], ["x", "+", "1k", "", "1 ", "18446744073709551616", "٣"]),
     "-size": (["1k", "+2M", "-3", "0c", "5w", "1G", "7b"], ["10x", "k", "", "1kk", "abc10k", "1K"]),
     "-type": (["f", "d", "l", "p", "s", "b", "c"], ["x", "fd", "", "D", "F"]),
-    "-printf": (["%p\\n", "%5d|%-3f", "abc", "%%", "\\101", "é%p", "%H/%P", "\\c", "%AH", "%T@"],
-                ["\\q", "%", "abc\\", "\\é", "%é", "%99999999999999999999p", "%A", "%5"]),
+    "-printf": (["%p\\n", "%5d|%-3f", "abc", "%%", "\\101", "é%p", "%H/%P", "\\c", "%AH", "%T@", "\\101é", "\\1é"],
+                ["\\q", "%", "abc\\", "\\é", "%é", "%99999999999999999999p", "%A", "%5", "\\12é", "\\1€", "%Aé", "\\0😀"]),
     "depth": (["0", "3", "+2", "10"], ["-1", "x", "", "1.5"]),
     "-regextype": (["emacs", "posix-extended", "grep", "sed", "ed", "posix-basic"], ["bogus", "", "EMACS"]),
 }
@@ -136,6 +136,20 @@ class G:
             t = t + [","] + self.disj(d)
         return t
 
+    def random_operand(self, name):
+        """an arbitrary string for a primary whose operand the extracted validators decide (-printf, numeric tests, -size, -type, depth, -regextype)"""
+        rng = self.rng
+        if name in ("-printf", "-fprintf"):
+            alpha = ["%", "%", "\\", "\\", "0", "1", "2", "7", "8", "a", "p", "d", "-", " ", "5", "é", "€", "😀", "A", "T", "@", "c", "n", "H", "q", "9"]
+            return "".join(rng.choice(alpha) for _ in range(rng.randint(1, 7)))
+        if name in NUMERIC or name in ("-mindepth", "-maxdepth"):
+            return "".join(rng.choice(["+", "-", "0", "1", "9", "k", " ", "٣", "x", ""]) for _ in range(rng.randint(0, 4)))
+        if name == "-size":
+            return "".join(rng.choice(["+", "-", "0", "1", "9", "k", "M", "G", "c", "w", "b", "K", "x", " "]) for _ in range(rng.randint(0, 4)))
+        if name in ("-type", "-xtype"):
+            return "".join(rng.choice("fdlbcpsDx,") for _ in range(rng.randint(0, 2)))
+        return rng.choice(["emacs", "sed", "posix", "posix-", "grep ", "ed"])
+
     def mutate(self, argv):
         rng = self.rng
         argv = list(argv)
@@ -150,11 +164,15 @@ class G:
             elif k < 0.7 and argv:
                 argv = argv[:rng.randint(0, len(argv) - 1)]
             elif argv:
-                # replace the operand of some primary by an invalid value
+                # replace the operand of some primary by an invalid or arbitrary value
                 idx = [i for i, a in enumerate(argv[:-1]) if pool_for(a) and pool_for(a)[1]]
                 if idx:
                     i = rng.choice(idx)
-                    argv[i + 1] = rng.choice(pool_for(argv[i])[1])
+                    name = argv[i]
+                    if (name in MODELLED or name in NUMERIC or name in ("-xtype", "-mindepth", "-maxdepth", "-fprintf")) and rng.random() < 0.6:
+                        argv[i + 1 if name != "-fprintf" else min(i + 2, len(argv) - 1)] = self.random_operand(name)
+                    else:
+                        argv[i + 1] = rng.choice(pool_for(argv[i])[1])
                 else:
                     argv.insert(rng.randint(0, len(argv)), rng.choice(junk))
         return argv
@@ -263,6 +281,11 @@ def run(ctx):
                         for _ in range(rng.randint(1, 5))]
             if len(argv) > 14:
                 argv = argv[:14]
+            # output files are created while the command line is parsed: keep their targets to /dev/null or an uncreatable path, so that
+            # no vector changes what a later vector's file operands refer to
+            for i, a in enumerate(argv[:-1]):
+                if a in ("-fprint", "-fprint0", "-fls", "-fprintf") and argv[i + 1] not in ("/dev/null", "/nonexistent_dir_x/out"):
+                    argv[i + 1] = rng.choice(["/dev/null", "/dev/null", "/nonexistent_dir_x/out"])
             # the expression must not start with something parse_args takes as a starting point
             if not argv or not (argv[0].startswith("-") and argv[0] != "-" or argv[0] in ("(", "!")):
                 argv = ["-true"] + argv
